@@ -62,8 +62,9 @@ def adv(net, dt):
     net.loop.advance(dt)
 
 
-def run_start(script, addresses=None):
+def run_start(script, addresses=None, n_addr=1):
     net, conn = mk_conn(False, addresses)
+    net.n_addr_infos = n_addr
     loop = net.loop
     st = Stamp(loop, conn.start_connection())
     loop.run_idle()
@@ -178,10 +179,18 @@ def timing(ck):
             scripts = scripts[:40]
         # the connect bound holds whatever form the configured addresses have (IP literal, .local, bare name, DNS name, …)
         forms = common.ADDRESS_FORMS if kind == "start" else (None,)
+        if kind == "start":
+            # always part of the sample: the TCP connect that never completes, and the one that completes just in time
+            for must in ([("ok", 0), ("silent", 0)], [("ok", 1), ("silent", 0)], [("ok", 0), ("ok", 59)], [("silent", 0), ("ok", 0)]):
+                if tuple(must) not in [tuple(x) for x in scripts]:
+                    scripts.append(tuple(must))
         for sc, form in itertools.product(scripts, forms):
             sc = list(sc)
             if kind == "start":
-                dur, end = run_start(sc, form)
+                # the documented bound is per connect, however many addresses the name resolved to (used where the TCP connect
+                # does not fail: with several addresses a failed connect goes on to the next one)
+                n_addr = 1 if len(sc) < 2 or sc[1][0] == "err" else 1 + (list(forms).index(form) % 2)   # one or two addresses
+                dur, end = run_start(sc, form, n_addr)
             elif kind == "disc":
                 dur, end = run_disc(sc)
             else:
